@@ -413,16 +413,22 @@ fn builtin_flush(args: Vec<Rc<Object>>) -> Result<Rc<Object>, String> {
             }
             FileHandle::Writer(writer) => {
                 let mut writer = writer.borrow_mut();
-                writer.flush().expect("Failed to flush file");
+                if let Err(e) = writer.flush() {
+                    return Ok(Rc::new(Object::Err(ErrorObj::IO(e))));
+                }
             }
             FileHandle::Stdin => {
                 return Err("cannot flush stdin".to_string());
             }
             FileHandle::Stdout => {
-                io::stdout().flush().expect("Failed to flush stdout");
+                if let Err(e) = io::stdout().flush() {
+                    return Ok(Rc::new(Object::Err(ErrorObj::IO(e))));
+                }
             }
             FileHandle::Stderr => {
-                io::stderr().flush().expect("Failed to flush stderr");
+                if let Err(e) = io::stderr().flush() {
+                    return Ok(Rc::new(Object::Err(ErrorObj::IO(e))));
+                }
             }
         },
         _ => return Err(String::from("argument should be a file handle")),
